@@ -7,8 +7,9 @@
 //     strings built from the characters / classes the pattern mentions,
 //   * dumps, for every rune that can matter, its unicode.SimpleFold orbit and its membership in the
 //     Unicode / POSIX tables the pattern can ask about (oracles of Model/C21_RegexSem.v),
-//   * for patterns whose only source of extended mode is the global x flag: re-transpiles
-//     strip_x(src) without x (independent reading of "comments and whitespace are removed").
+//   * for patterns with extended mode (global x flag and / or flag groups `(?x)`, `(?-x)`, `(?x:..)`,
+//     `(?-x:..)`): re-transpiles xStrip(src) without the global x - an independent, source-level reading
+//     of "comments and whitespace are removed where x is on, `#` and whitespace are literal where it is off".
 //
 // input   : "f=<imsUxa subset|-> src=<hex> ast=<tree|ERR|HANG> subj=<hex,..> orc=<r:orbit:names;..>"
 // observed: "text=<hex|ERR>;go=<ok|err>;m=<bits|->;xref=<hex|ERR|->[;xcause=<class>]"
@@ -757,14 +758,30 @@ func subjectsFor(root ast.Node, f bitfield.BitField8, seed uint64, given []strin
 
 // ---------------------------------------------------------------- strip_x: independent reading of extended mode
 //
-// Remove `#` comments (to the end of the line or of the text) and unescaped whitespace
-// (unicode.IsSpace) outside character classes; `\<anything>` is kept as a pair (so `\ ` stays),
-// `\Q..\E`, `[..]` and `(?#..)` are copied verbatim.
+// ---- flag-aware reading of extended mode (second pass: inline `(?x)` / `(?-x)` / `(?x:..)` / `(?-x:..)`)
+//
+// xScan walks the SOURCE with the x state the text itself prescribes: `x0` at the start, a bare
+// flag group `(?..x..)` / `(?..-..x..)` switches it for the rest of the enclosing group, a group
+// with content restores the state it was opened under when it closes (`|` does not touch it).
+// Where x is on, comments and unescaped whitespace are removed; where x is off, `#` and
+// whitespace are ordinary characters and stay.  Flag groups are kept as they are (x is invisible
+// in the emitted text), so Transpile(xStrip(src, x0), f - x) is what Transpile(src, f) must emit.
+// It does not use the regex lexer / parser / transpiler.  ok=false: the text has a `(?` head
+// this scanner does not read (the oracle is then not applied).
+//
+// edit, when not nil, is called for every rune that is copied as an ordinary character
+// (outside escapes, classes, \Q..\E, group heads) with the x state at that point and may
+// substitute it (used by the cause classification only); strip=false copies the comments and
+// whitespace of the x-on regions too.
 
-func stripX(src string) string {
+const flagChars = "imsUxa"
+
+func xScan(src string, x0 bool, strip bool, edit func(c rune, x bool) rune, live []bool) (string, bool) {
 	rs := []rune(src)
-	var out []rune
 	n := len(rs)
+	var out []rune
+	var stack []bool
+	x := x0
 	i := 0
 	for i < n {
 		c := rs[i]
@@ -774,7 +791,7 @@ func stripX(src string) string {
 			for j < n && rs[j] != '\\' {
 				j++
 			}
-			j = min(j+2, n) // the closing \E (or whatever follows the backslash)
+			j = min(j+2, n)
 			out = append(out, rs[i:j]...)
 			i = j
 		case c == '\\':
@@ -800,27 +817,129 @@ func stripX(src string) string {
 			j = min(j+1, n)
 			out = append(out, rs[i:j]...)
 			i = j
-		case c == '(' && i+2 < n && rs[i+1] == '?' && rs[i+2] == '#':
-			j := i + 3
-			for j < n && rs[j] != ')' {
+		case x && c == '#':
+			if live != nil {
+				live[i] = true
+			}
+			j := i
+			for j < n && rs[j] != '\n' {
 				j++
 			}
 			j = min(j+1, n)
-			out = append(out, rs[i:j]...)
+			if !strip {
+				out = append(out, rs[i:j]...)
+			}
 			i = j
-		case c == '#':
-			for i < n && rs[i] != '\n' {
-				i++
+		case x && unicode.IsSpace(c):
+			if live != nil {
+				live[i] = true
+			}
+			if !strip {
+				out = append(out, c)
 			}
 			i++
-		case unicode.IsSpace(c):
+		case c == '(' && i+1 < n && rs[i+1] == '?':
+			j := i + 2
+			if j < n && rs[j] == '#' { // comment group, verbatim
+				for j < n && rs[j] != ')' {
+					j++
+				}
+				j = min(j+1, n)
+				out = append(out, rs[i:j]...)
+				i = j
+				continue
+			}
+			set, unset, dash := false, false, false
+			for j < n && (rs[j] == '-' || strings.ContainsRune(flagChars, rs[j])) {
+				switch {
+				case rs[j] == '-':
+					dash = true
+				case rs[j] == 'x' && dash:
+					unset = true
+				case rs[j] == 'x':
+					set = true
+				}
+				j++
+			}
+			nx := (x || set) && !unset
+			switch {
+			case j < n && rs[j] == ')': // bare flag group: the rest of the enclosing group
+				x = nx
+				j++
+			case j < n && rs[j] == ':': // scoped
+				stack = append(stack, x)
+				x = nx
+				j++
+			case j == i+2 && j < n && (rs[j] == '<' || rs[j] == '\'' || (rs[j] == 'P' && j+1 < n && rs[j+1] == '<')):
+				// named group: the head up to the closing > or ' is copied
+				if rs[j] == 'P' {
+					j++
+				}
+				q := rs[j]
+				if q == '<' {
+					q = '>'
+				}
+				j++
+				for j < n && rs[j] != q && rs[j] != ')' {
+					j++
+				}
+				if j >= n || rs[j] != q {
+					return "", false
+				}
+				j++
+				stack = append(stack, x)
+			default:
+				return "", false
+			}
+			out = append(out, rs[i:j]...)
+			i = j
+		case c == '(':
+			stack = append(stack, x)
+			out = append(out, c)
+			i++
+		case c == ')':
+			if len(stack) > 0 {
+				x = stack[len(stack)-1]
+				stack = stack[:len(stack)-1]
+			}
+			out = append(out, c)
 			i++
 		default:
+			if edit != nil {
+				c = edit(c, x)
+			}
 			out = append(out, c)
 			i++
 		}
 	}
-	return string(out)
+	return string(out), true
+}
+
+func xStrip(src string, x0 bool) (string, bool) { return xScan(src, x0, true, nil, nil) }
+
+// per rune of src: it is a `#` that starts a comment, or a whitespace rune that is dropped, under the x state the
+// text prescribes at that point (nil when the scanner cannot read the text)
+func xLive(src string, x0 bool) []bool {
+	live := make([]bool, len([]rune(src)))
+	if _, ok := xScan(src, x0, false, nil, live); !ok {
+		return nil
+	}
+	return live
+}
+
+// the source (nothing removed) with every `#` (hash) or whitespace rune (!hash) that stands where
+// x is OFF replaced by 'c' - used by the cause classification only
+func defuseOutsideX(src string, x0 bool, hash bool) string {
+	s, ok := xScan(src, x0, false, func(c rune, x bool) rune {
+		if !x && ((hash && c == '#') || (!hash && unicode.IsSpace(c))) {
+			return 'c'
+		}
+		return c
+	}, nil)
+	if !ok {
+		return src
+	}
+	return s
 }
 
 // neutralise copies src and defuses one suspected cause of an extended-mode disagreement:
@@ -834,9 +953,11 @@ type defuse struct {
 	hashq, nlq, wsq, lone bool
 }
 
-func neutralise(src string, d defuse) string {
+func neutralise(src string, x0 bool, d defuse) string {
 	const quant = "*+?{"
 	rs := []rune(src)
+	live := xLive(src, x0)
+	on := func(i int) bool { return live == nil || live[i] }
 	out := make([]rune, 0, len(rs)+1)
 	n := len(rs)
 	i := 0
@@ -874,7 +995,7 @@ func neutralise(src string, d defuse) string {
 				j++
 			}
 			j = min(j+1, n)
-		case c == '#':
+		case c == '#' && on(i):
 			out = append(out, '#')
 			for j < n && rs[j] != '\n' {
 				switch {
@@ -893,14 +1014,23 @@ func neutralise(src string, d defuse) string {
 			if j < n { // the newline
 				out = append(out, '\n')
 				j++
-				if d.nlq && j < n && strings.ContainsRune(quant, rs[j]) {
+				// a quantifier after the newline, possibly behind `(?#..)` groups (the lexer drops them)
+				k := j
+				for k+2 < n && rs[k] == '(' && rs[k+1] == '?' && rs[k+2] == '#' {
+					for k < n && rs[k] != ')' {
+						k++
+					}
+					k = min(k+1, n)
+				}
+				if d.nlq && k < n && strings.ContainsRune(quant, rs[k]) {
+					out = append(out, rs[j:k]...)
 					out = append(out, 'c')
-					j++
+					j = k + 1
 				}
 			}
 			i = j
 			continue
-		case unicode.IsSpace(c):
+		case unicode.IsSpace(c) && on(i):
 			out = append(out, c)
 			if d.wsq && j < n && strings.ContainsRune(quant, rs[j]) {
 				out = append(out, 'c')
@@ -921,29 +1051,41 @@ func neutralise(src string, d defuse) string {
 func xCause(src string, f bitfield.BitField8) string {
 	g := f
 	g.UnsetFlag(flag.ExtendedFlag)
+	x0 := f.HasFlag(flag.ExtendedFlag)
 	agrees := func(s string) bool {
-		if wouldHang(s) || wouldHang(stripX(s)) {
+		st, ok := xStrip(s, x0)
+		if !ok || wouldHang(s) || wouldHang(st) {
 			return false
 		}
 		_, a := transpileHex(s, f)
-		_, b := transpileHex(stripX(s), g)
+		_, b := transpileHex(st, g)
 		return a == b
 	}
 	single := []struct {
 		name string
 		d    defuse
 	}{
-		{"hashq", defuse{hashq: true}}, {"lonehash", defuse{lone: true}}, {"pipe", defuse{set: "|"}}, {"paren", defuse{set: "()"}},
-		{"bracket", defuse{set: "[]"}}, {"quantifier", defuse{set: "*+?{}"}}, {"backslash", defuse{set: "\\"}}, {"nlq", defuse{nlq: true}}, {"wsq", defuse{wsq: true}},
+		{"hashq", defuse{hashq: true}}, {"lonehash", defuse{lone: true}}, {"nlq", defuse{nlq: true}}, {"pipe", defuse{set: "|"}}, {"paren", defuse{set: "()"}},
+		{"bracket", defuse{set: "[]"}}, {"quantifier", defuse{set: "*+?{}"}}, {"backslash", defuse{set: "\\"}}, {"wsq", defuse{wsq: true}},
+	}
+	// inline x groups: a literal `#` / whitespace where x is OFF read as a comment / dropped (or the reverse);
+	// tried first so that this class never hides behind one of the comment-text classes below
+	if xGroupRe.MatchString(src) {
+		if s := defuseOutsideX(src, x0, true); s != src && agrees(s) {
+			return "hashoff"
+		}
+		if s := defuseOutsideX(src, x0, false); s != src && agrees(s) {
+			return "wsoff"
+		}
 	}
 	for _, c := range single {
-		if agrees(neutralise(src, c.d)) {
+		if s := neutralise(src, x0, c.d); s != src && agrees(s) {
 			return c.name
 		}
 	}
-	if agrees(neutralise(src, defuse{set: "|()[]*+?{}\\^$", hashq: true, nlq: true, wsq: true, lone: true})) {
+	if agrees(neutralise(src, x0, defuse{set: "|()[]*+?{}\\^$", hashq: true, nlq: true, wsq: true, lone: true})) {
 		for _, c := range single {
-			if neutralise(src, c.d) != src {
+			if neutralise(src, x0, c.d) != src {
 				return "multi-" + c.name
 			}
 		}
@@ -1046,11 +1188,14 @@ func emitCase(id string, fs string, src string, given []string) {
 		hx.Emit(id, head+" ast=HANG subj=e orc=", "skipped-unterminated-comment-group")
 		return
 	}
+	// direct oracle for extended mode: whenever x is on somewhere (literal flag or a flag group that mentions x)
 	xref := "-"
-	if f.HasFlag(flag.ExtendedFlag) && !xGroupRe.MatchString(src) {
+	if f.HasFlag(flag.ExtendedFlag) || xGroupRe.MatchString(src) {
 		g := f
 		g.UnsetFlag(flag.ExtendedFlag)
-		xref = hx.Guard(func() string { _, h := transpileHex(stripX(src), g); return h })
+		if st, ok := xStrip(src, f.HasFlag(flag.ExtendedFlag)); ok {
+			xref = hx.Guard(func() string { _, h := transpileHex(st, g); return h })
+		}
 	}
 	var root ast.Node
 	var bad bool
@@ -1073,9 +1218,6 @@ func emitCase(id string, fs string, src string, given []string) {
 	if w.bad {
 		hx.Emit(id, head+" ast=ERR subj=e orc=", "unexpected-node;"+observe(src, f, nil, xref))
 		return
-	}
-	if w.flagsX {
-		xref = "-"
 	}
 	subjects := subjectsFor(root, f, seedOf(fs, src), given)
 	var sh []string
@@ -1123,9 +1265,25 @@ var commentSpecial = []rune{'|', '|', '(', ')', '*', '#', '[', ']', '+', '?', '{
 
 type gen struct {
 	r      *hx.Rng
-	x      bool
+	x      bool // extended mode is on at the point being generated (as the text prescribes it)
+	xs     bool // the pattern plays with x: literal flag, or some flag group so far mentions x
+	fg     bool // flag-group-heavy pattern
 	budget int
 	names  int
+}
+
+// text whose reading depends on the x state: written after flag groups (bare and scoped), at the start of
+// a scoped group's body and after its end, whatever the state is - a literal `#` / whitespace where x is
+// off, a comment / nothing where it is on
+var probes = []string{
+	"#", "#", "#b", "#b", " ", " ", " #", "# ", "#\n", "# c\n", "#c\nd", " b", "\t", "\n", "b #", "b#c", " # #\n", "#y z\n ", "  ", "\n#",
+}
+
+func (g *gen) probe() string {
+	if g.r.Chance(1, 6) {
+		return g.sprinkle(false)
+	}
+	return hx.Pick(g.r, probes)
 }
 
 func (g *gen) sprinkle(last bool) string {
@@ -1188,12 +1346,13 @@ func (g *gen) concat() string {
 	}
 	var sb strings.Builder
 	for i := 0; i < n && (g.budget > 0 || i == 0); i++ {
-		if g.x && g.r.Chance(2, 5) {
+		if (g.x && g.r.Chance(2, 5)) || (!g.x && g.xs && g.r.Chance(1, 5)) {
+			// where x is off (after `(?-x)`, inside `(?-x:..)`, before `(?x)`) the same text is literal
 			sb.WriteString(g.sprinkle(false))
 		}
 		sb.WriteString(g.quantified())
 	}
-	if g.x && g.r.Chance(1, 4) {
+	if (g.x && g.r.Chance(1, 4)) || (!g.x && g.xs && g.r.Chance(1, 8)) {
 		sb.WriteString(g.sprinkle(true))
 	}
 	return sb.String()
@@ -1233,32 +1392,48 @@ func (g *gen) quantified() string {
 	return p
 }
 
-func (g *gen) flagGroupHead() (string, bool) {
-	pick := func() string { return hx.Pick(g.r, []string{"i", "i", "i", "a", "a", "x", "x", "s", "m", "U"}) }
-	set, unset := "", ""
-	switch g.r.Below(10) {
-	case 0:
-	case 1, 2, 3, 4, 5, 6:
-		set = pick()
-	default:
-		set = pick()
-		if s2 := pick(); s2 != set {
-			set += s2
-		}
-	}
-	if g.r.Chance(1, 3) || set == "" {
-		unset = pick()
-		if g.r.Chance(1, 5) {
-			if u2 := pick(); u2 != unset {
-				unset += u2
+// `(?set-unset` with every flag possible on either side (x weighted up); returns the head, whether it
+// mentions x, and the x state it produces from the current one (set first, then unset, as group() does)
+func (g *gen) flagGroupHead() (string, bool, bool) {
+	pool := []rune("xxxiiaasmU")
+	subset := func(k int) string {
+		var out []rune
+		for ; k > 0; k-- {
+			c := hx.Pick(g.r, pool)
+			if !strings.ContainsRune(string(out), c) {
+				out = append(out, c)
 			}
+		}
+		return string(out)
+	}
+	var set, unset string
+	switch k := g.r.Below(20); {
+	case k < 4:
+	case k < 15:
+		set = subset(1)
+	case k < 19:
+		set = subset(2)
+	default:
+		set = subset(3)
+	}
+	dash := false
+	if set == "" || g.r.Chance(2, 5) {
+		dash = true
+		unset = subset(1)
+		if g.r.Chance(1, 5) {
+			unset = subset(2)
 		}
 		if g.r.Chance(1, 12) {
 			unset = ""
 		}
-		return "(?" + set + "-" + unset, strings.Contains(set, "x") && !strings.Contains(unset, "x")
 	}
-	return "(?" + set, strings.Contains(set, "x")
+	head := "(?" + set
+	if dash {
+		head += "-" + unset
+	}
+	mentions := strings.Contains(set, "x") || strings.Contains(unset, "x")
+	nx := (g.x || strings.Contains(set, "x")) && !strings.Contains(unset, "x")
+	return head, mentions, nx
 }
 
 // returns the text and whether it is a flag-only group
@@ -1266,6 +1441,9 @@ func (g *gen) primary() (string, bool) {
 	k := g.r.Below(100)
 	if g.budget <= 1 && k >= 64 {
 		k = g.r.Below(64)
+	}
+	if g.fg && g.budget > 1 && g.r.Chance(1, 3) {
+		k = 77 + g.r.Below(23) // a flag-only group or a group
 	}
 	switch {
 	case k < 30:
@@ -1285,46 +1463,53 @@ func (g *gen) primary() (string, bool) {
 	case k < 77:
 		return g.class(), false
 	case k < 83: // flag-only group
-		h, setsX := g.flagGroupHead()
+		h, mentions, nx := g.flagGroupHead()
 		if g.r.Chance(1, 25) {
 			h = hx.Pick(g.r, []string{"(?", "(?-"})
+			mentions, nx = false, g.x
 		}
-		if setsX {
-			g.x = true
-		} else if strings.Contains(h, "-") && strings.Contains(h[strings.Index(h, "-"):], "x") {
-			g.x = false
+		g.x = nx
+		g.xs = g.xs || mentions
+		h += ")"
+		if g.r.Chance(1, 2) {
+			h += g.probe()
 		}
-		return h + ")", true
+		return h, true
 	default:
-		var head string
+		var head, tail string
 		saved := g.x
 		switch j := g.r.Below(20); {
-		case j < 6:
+		case j < 6 && !g.fg:
 			head = "("
-		case j < 10:
+		case j < 10 && !g.fg:
 			head = "(?:"
-		case j < 12:
+		case j < 12 && !g.fg:
 			head = "(?<" + groupNames[g.names%len(groupNames)] + ">"
 			g.names++
-		case j < 14:
+		case j < 14 && !g.fg:
 			head = "(?P<" + groupNames[g.names%len(groupNames)] + ">"
 			g.names++
-		case j < 15:
+		case j < 15 && !g.fg:
 			head = "(?'" + groupNames[g.names%len(groupNames)] + "'"
 			g.names++
+		case j < 3: // fg: plain groups stay possible (a bare flag group inside them is scoped by them)
+			head = hx.Pick(g.r, []string{"(", "(?:"})
 		default:
-			h, setsX := g.flagGroupHead()
+			h, mentions, nx := g.flagGroupHead()
 			head = h + ":"
-			if setsX {
-				g.x = true
-			} else if strings.Contains(h, "-") && strings.Contains(h[strings.Index(h, "-"):], "x") {
-				g.x = false
+			g.x = nx
+			g.xs = g.xs || mentions
+			if g.r.Chance(1, 3) {
+				head += g.probe()
+			}
+			if g.r.Chance(1, 3) {
+				tail = g.probe()
 			}
 		}
 		g.budget--
 		body := g.regex()
 		g.x = saved
-		return head + body + ")", false
+		return head + body + ")" + tail, false
 	}
 }
 
@@ -1406,7 +1591,9 @@ func genFlags(r *hx.Rng) string {
 
 func genPattern(r *hx.Rng) (string, string) {
 	fs := genFlags(r)
-	g := &gen{r: r, x: strings.Contains(fs, "x"), budget: 12}
+	x := strings.Contains(fs, "x")
+	g := &gen{r: r, x: x, xs: x, budget: 12}
+	g.fg = r.Chance(1, 6)
 	return fs, g.regex()
 }
 
